@@ -562,6 +562,11 @@ def c04(ctx):
     n = 25 if q else 800
     if not ctx.gv("crash-points", "Trace_Table", ["disk", "--mode", "crash", "--seed", str(seed()), "--n", str(n)]):
         return
+    # repeated crashes on the real code: the process that recovers from the first crash (Open, re-apply, Sync) crashes
+    # again at a random one of ITS file-system operations; the second recovery is judged by the same rule with the
+    # apply-batch boundaries and completed syncs of both lives
+    if not ctx.gv("repeated-crashes", "Trace_Table", ["disk", "--mode", "crash2", "--seed", str(seed() + 3), "--n", str(12 if q else 500)]):
+        return
     # an apply batch of 27 MiB whose entries read inside the batch: memtable rotations / flushes fall inside FSM.Update
     if not ctx.gv("crash-points-big-batch", "Trace_Table", ["disk", "--mode", "bigbatch", "--seed", str(seed()), "--n", "1", "--stride", "2" if q else "1"]):
         return
